@@ -61,7 +61,10 @@ template<class A> struct Sess {
       if(!sig&&rc==URI_SUCCESS){ sl.held=true; sl.valid=true; sl.owner=false; sl.deps={bdep(i)}; j.raw("out",proj(s)); } else if(!sig){ if(rc==URI_ERROR_MALLOC) call([&]{ cleanup(&sl.uri); }); memset(&sl.uri,0,sizeof sl.uri); }
       g.event_to(shard,j.done()); if(!sig&&rc==URI_SUCCESS) observe(s); return; }
     // a failed in-place call leaves the URI in a state that may only be freed: the caller's ordinary clean-up follows at once
-    auto failed_inplace=[&](int s){ Slot&sl=slots[s]; call([&]{ cleanup(&sl.uri); }); if(sl.owner) invalidate(sdep(s)); sl=Slot(); memset(&sl.uri,0,sizeof sl.uri); };
+    auto failed_inplace=[&](int s){ Slot&sl=slots[s];
+      // before the clean-up: the object a failed call leaves in the caller's hands must at least be safe to read (no pointer into memory the call released)
+      { std::string v; int sg=call([&]{ v=proj(s); Text t; real_tostring<A>(sl.uri,t); }); g.event_to(shard,J().str("e","SAfterFail").num("w",A::W).num("s",s).num("fault",sg).done()); if(sg){ dead=true; return; } }
+      call([&]{ cleanup(&sl.uri); }); if(sl.owner) invalidate(sdep(s)); sl=Slot(); memset(&sl.uri,0,sizeof sl.uri); };
     if(op=="own"){ int s=S("s"); Slot&sl=slots[s]; std::string pre=proj(s); int rc=-9; arm(fk); int sig=call([&]{ rc= usemm? A::MakeOwnerMm(&sl.uri,&mm.mm) : A::MakeOwner(&sl.uri); }); bool mf=disarm();
       J j; j.str("e","SMakeOwner").num("w",A::W).num("s",s).raw("pre",pre).num("rc",rc).num("fault",sig).boo("memfail",mf); if(!sig&&rc==URI_SUCCESS){ sl.owner=true; sl.deps.clear(); j.raw("out",proj(s)); } else if(!sig&&rc==URI_ERROR_MALLOC&&mf) failed_inplace(s); else dead=true;
       g.event_to(shard,j.done()); observe_all(); return; }
@@ -146,6 +149,18 @@ template<class A> static void chain_episode(const std::vector<JV>&script,size_t 
   Sess<A> S(5,3,usemm); S.shard=shard; g.event_to(shard,J().str("e","Reset").num("ns",5).num("nb",3).done()); std::string desc;
   for(auto&a:script){ if(S.dead) break; if(!S.can(a)) continue; desc+=a.dump(); g.set_case(J().str("driver","session/chain").num("w",A::W).str("script",desc).done()); S.exec(a); }
   S.finish(); g.count(desc,true); }
+// every allocating operation x every kind of host on either operand x every failing request: short episodes, all with the recording manager
+static void fault_scripts(std::vector<std::vector<JV>>&out){
+  const char* hosts[]={"//h","//1.2.3.4","//[::1]","//[v7.Fe]","//u@H%41:80"};
+  for(auto hr:hosts) for(auto hb:hosts) for(int op=0;op<4;++op) for(int k=1;k<=8;++k){ std::vector<JV> s; std::string r=std::string("s:")+hr+"/a/b/../c?q#f", b=std::string("s:")+hb+"/a/x/y";
+    if(op>=2 && hr!=hb) continue;
+    s.push_back(with_text(act("buf",{{"i",1}}),T(r.c_str()))); s.push_back(with_text(act("buf",{{"i",2}}),T(b.c_str())));
+    s.push_back(act("parse",{{"s",1},{"i",1}})); s.push_back(act("parse",{{"s",2},{"i",2}}));
+    JV a = op==0? with_bool(act("add",{{"d",3},{"r",1},{"b",2}}),"o",false) : op==1? with_bool(act("rem",{{"d",3},{"s",1},{"b",2}}),"md",false) : op==2? act("own",{{"s",1}}) : act("norm",{{"s",1},{"m",63}});
+    JV n; n.k=JV::NUM; n.n=k; a.o.push_back({"fail",n}); s.push_back(a);
+    s.push_back(act("eq",{{"a",1},{"b",2}})); s.push_back(with_bool(act("add",{{"d",4},{"r",2},{"b",2}}),"o",false));
+    out.push_back(s); } }
+
 static void chain_scripts(std::vector<std::vector<JV>>&out){
   const char* bases[]={"s://h/a/b/c","s://h/a/b/","s:/a/b/c","s:a/b/c","s://u@h:1/a/b/c?q"};
   const char* refs[]={"x/.","x/y/.","x/..","./","../x/.","x/./y/..","..//x","x//","./x:y","../../..","?q2","","/.//x","//g/p/.."};
@@ -171,8 +186,8 @@ VH_DRIVER(session){
   std::string mode=arg_value(argc,argv,"--mode","random"); long n=atol(arg_value(argc,argv,"--n",g.thorough?"20000":"1500")); Rng R(g.seed);
   if(mode=="random"){ std::vector<Text> pool=corpus_uris(R,false,300); int steps=atoi(arg_value(argc,argv,"--steps",g.thorough?"30":"20"));
     for(long i=0;i<n;++i){ if(g.pair){ Rng R2=R; AW(true,true,[&]{ random_episode<ApiA>(R,steps,(size_t)i,pool); },[&]{ random_episode<ApiW>(R2,steps,(size_t)i,pool); },(size_t)i); } else if(i%2) random_episode<ApiA>(R,steps,(size_t)i,pool); else random_episode<ApiW>(R,steps,(size_t)i,pool); if(i%501==0) g.sample(J().str("episode","random session").num("steps",steps).num("index",i).done()); }
-  } else if(mode=="chains"){ std::vector<std::vector<JV>> scripts; chain_scripts(scripts); size_t total=scripts.size(); double keep= (long)total>n? (double)n/total : 1.0;
-    for(size_t i=0;i<total;++i){ if(keep<1.0 && (R.next()%1000000)>=keep*1000000) continue; bool um=(i%5==0);
+  } else if(mode=="chains"){ std::vector<std::vector<JV>> scripts; fault_scripts(scripts); size_t nfault=scripts.size(); chain_scripts(scripts); size_t total=scripts.size(); double keep= (long)(total-nfault)>n? (double)n/(total-nfault) : 1.0;
+    for(size_t i=0;i<total;++i){ if(i>=nfault && keep<1.0 && (R.next()%1000000)>=keep*1000000) continue; bool um=(i<nfault)||(i%5==0);
       if(g.pair) AW(true,true,[&]{ chain_episode<ApiA>(scripts[i],i,um); },[&]{ chain_episode<ApiW>(scripts[i],i,um); },i); else if(i%2) chain_episode<ApiA>(scripts[i],i,um); else chain_episode<ApiW>(scripts[i],i,um);
       if(i%211==0) g.sample(J().str("episode","chain").num("index",(long long)i).done()); }
   } else { auto lines=read_lines(arg_value(argc,argv,"--script","")); long k=0; for(auto&l:lines){ bool ok=true; JV rec=jparse_line(l,&ok); if(!ok||!rec.has("script")) continue; ++k;
